@@ -26,6 +26,7 @@ RULE = ('case = one accepted generated document (both attribution modes; a third
 ASSUMPTIONS = ['an edit that raises ends that edit sequence (C19 decides what refusals leave behind)']
 
 _corpus = None
+REFUSED = [False]
 
 
 def setup(col):
@@ -110,6 +111,7 @@ def edit_sequence(col, r, root, watched_store, label, wit, counter):
         try:
             op.apply()
         except Exception:
+            REFUSED[0] = True       # what a refused call leaves behind is C19's question; copies are not judged after one
             return True
         col.ev()
         col.count('independence_checks')
@@ -217,16 +219,30 @@ def run_case(col, r, idx):
                 col.violation('container-copies-share-store', f'the copies of {path} and {p2} share one store', wit)
                 return
         # independence
+        REFUSED[0] = False
         subs = walker.tree_models(f)
         for _ in range(2):
             path, m = r.choice(subs)
-            c = copy.deepcopy(m)
             wit = dict(wit0, path=path)
+            try:
+                c = copy.deepcopy(m)
+            except Exception as e:
+                col.ev()
+                if not REFUSED[0]:
+                    errs = walker.check_tree(f)
+                    col.violation(f'deepcopy-raised:{type(m).__name__}:after-edits', f'copy.deepcopy({path}) raised {type(e).__name__}: {e} after a '
+                                  f'sequence of accepted edits' + (f' (the document tree: {errs[0][1]})' if errs else ''), wit)
+                return
             if not edit_sequence(col, r, c, f.token_store, 'edit-of-copy-changed-original', wit, 'edits_on_copy_changing_it'):
                 return
             try:
                 c2 = copy.deepcopy(m)
-            except Exception:
+            except Exception as e:
+                col.ev()
+                if not REFUSED[0]:
+                    errs = walker.check_tree(f)
+                    col.violation(f'deepcopy-raised:{type(m).__name__}:after-edits', f'copy.deepcopy({path}) raised {type(e).__name__}: {e} after a '
+                                  f'sequence of accepted edits' + (f' (the document tree: {errs[0][1]})' if errs else ''), wit)
                 return
             if not edit_sequence(col, r, f, c2.token_store, 'edit-of-original-changed-copy', wit, 'edits_on_original_changing_it'):
                 return
